@@ -282,6 +282,8 @@ pub struct Cl {
     pub completion_checked: BTreeSet<u32>,
     /// client entity -> ticks for which `EntityReplicated` was observed in this session
     pub conf_ticks: BTreeMap<Entity, BTreeSet<u32>>,
+    /// mutate messages the network holds back for more than a 64-tick window: (release tick, message)
+    pub stash: Vec<(u32, Bytes)>,
     /// tick of the last update message the server sent to this client in this session
     pub last_upd_tick_sent: u32,
     /// tick of the last update message the transport handed to this client in this session
@@ -488,6 +490,7 @@ impl Sim {
                     fired: default(),
                     completion_checked: default(),
                     conf_ticks: default(),
+                    stash: vec![],
                     last_upd_tick_sent: 0,
                     last_upd_tick_delivered: 0,
                     stamps: default(),
@@ -702,6 +705,7 @@ impl Sim {
         c.fired.clear();
         c.completion_checked.clear();
         c.conf_ticks.clear();
+        c.stash.clear();
         c.last_upd_tick_sent = 0;
         c.last_upd_tick_delivered = 0;
         c.last_update_raw = 0;
@@ -1125,6 +1129,9 @@ impl Sim {
         if ch == 1 {
             if let Some(mm) = wire::mutate_msg(&m, self.cfg.track) {
                 *self.clients[ci].delivered_per_tick.entry(mm.tick).or_default() += 1;
+                if self.last_tick_seen.saturating_sub(mm.tick) >= 64 {
+                    self.obs.inc("mutate_messages_delivered_64_or_more_ticks_late");
+                }
                 if let Some(list) = self.clients[ci].inflight.get_mut(&mm.index) {
                     if let Some(m) = list.iter_mut().find(|x| x.0 == mm.tick && !x.3) {
                         m.3 = true;
@@ -1206,6 +1213,19 @@ impl Sim {
             return;
         }
         let r = self.rng.next() as usize;
+        // stragglers whose time has come
+        let now = self.last_tick_seen;
+        let due: Vec<Bytes> = {
+            let st = &mut self.clients[ci].stash;
+            let (d, keep): (Vec<_>, Vec<_>) = std::mem::take(st).into_iter().partition(|(rel, _)| *rel <= now);
+            *st = keep;
+            d.into_iter().map(|(_, m)| m).collect()
+        };
+        for m in due {
+            self.obs.inc("stragglers_delivered");
+            self.note(format!("deliver straggler s2c ch1 client{ci}"));
+            self.deliver_s2c(ci, 1, m);
+        }
         if self.rng.below(5) < 3 {
             let hold = self.clients[ci].hold_upd;
             let chans: Vec<usize> = self.clients[ci]
@@ -1234,6 +1254,13 @@ impl Sim {
                             self.obs.inc("reordered");
                         }
                         let m = q.remove(i).unwrap();
+                        if ch == 1 && self.rng.below(30) == 0 {
+                            // a straggler: this mutate message takes more than a whole 64-tick window
+                            let release = self.last_tick_seen + 64 + self.rng.below(16) as u32;
+                            self.clients[ci].stash.push((release, m));
+                            self.obs.inc("mutate_messages_held_back_beyond_the_window");
+                            return;
+                        }
                         if self.rng.below(4) == 0 {
                             self.obs.inc("dropped_s2c");
                             self.note(format!("drop s2c ch{ch} client{ci}"));
@@ -1285,6 +1312,9 @@ impl Sim {
             return;
         }
         if s2c {
+            for (_, m) in std::mem::take(&mut self.clients[ci].stash) {
+                self.deliver_s2c(ci, 1, m);
+            }
             let chans: Vec<usize> = self.clients[ci].s2c.keys().copied().collect();
             for ch in chans {
                 while let Some(m) = self.clients[ci].s2c.get_mut(&ch).unwrap().pop_front() {
